@@ -284,7 +284,7 @@ REGISTRY = {
     },
     "C16": {
         "rules": [threads.rule_kernel_template, threads.rule_pool_discipline, threads.rule_divisor_nonzero,
-                  threads.rule_stride_siblings, threads.rule_accumulator_initialised, reduceorder.rule_reduce_order, threads.rule_no_nested_pool_wait],
+                  threads.rule_stride_siblings, threads.rule_accumulator_initialised, reduceorder.rule_reduce_order, threads.rule_no_nested_pool_wait, threads.rule_growth_seed_positive],
         "explanation": (
             "static (template conformance + sign/zero abstract interpretation + sibling comparison): decides "
             "the shapes from which schedule independence follows — every block kernel partitions its own size "
